@@ -313,11 +313,11 @@ impl StaticObs {
     }
 }
 impl TimeObs {
-    pub fn coq(&self) -> String {
+    /// the observation without its instant (consecutive instants with equal answers are grouped)
+    pub fn body_coq(&self) -> String {
         let c = &self.cfg;
         format!(
-            "STime {} (mkT {} {} {} {} {} (mkCfg {} {} {} {} {} {} {} {} {}) {} {})",
-            self.t,
+            "(mkT {} {} {} {} {} (mkCfg {} {} {} {} {} {} {} {} {}) {} {})",
             match &self.active {
                 Some(s) => format!("(Some {})", s.coq()),
                 None => "None".into(),
